@@ -28,13 +28,13 @@ core.ensure_env()
 from unytsim import evidence, minimise, runner  # noqa: E402
 
 PROFILES = {
-    "C12": {"level": "exploration", "quick_runs": 1400, "quick_budget": 75, "thorough_budget": 900,
+    "C12": {"level": "exploration", "quick_runs": 3000, "quick_budget": 75, "thorough_budget": 900,
             "selftest_quick": 48, "selftest_thorough": 256, "timeout": 120},
-    "C13": {"level": "exploration", "quick_runs": 1400, "quick_budget": 75, "thorough_budget": 900,
+    "C13": {"level": "exploration", "quick_runs": 3000, "quick_budget": 75, "thorough_budget": 900,
             "selftest_quick": 48, "selftest_thorough": 256, "timeout": 120},
-    "C18": {"level": "fault_enumeration", "quick_runs": 4000, "quick_budget": 75, "thorough_budget": 900,
+    "C18": {"level": "fault_enumeration", "quick_runs": 12000, "quick_budget": 75, "thorough_budget": 900,
             "selftest_quick": 48, "selftest_thorough": 256, "timeout": 120},
-    "C11": {"level": "exploration", "quick_runs": 1400, "quick_budget": 75, "thorough_budget": 900,
+    "C11": {"level": "exploration", "quick_runs": 7000, "quick_budget": 75, "thorough_budget": 900,
             "selftest_quick": 48, "selftest_thorough": 256, "timeout": 120},
 }
 
@@ -158,6 +158,33 @@ def replay_known(prop, known, log):
     return sigs
 
 
+def replay_fixed(prop, known, known_sigs, log):
+    """Regression inputs: the minimised replay of every repaired defect
+    ('fixed: <commit>' entries suppress nothing).  If one of them violates
+    the property again, that is a violation like any other."""
+    back = []
+    n = 0
+    for e in known:
+        if not str(e.get("status", "")).startswith("fixed"):
+            continue
+        path = os.path.join(HERE, e["replay"])
+        try:
+            with open(path) as f:
+                doc = json.load(f)
+        except Exception as ex:
+            raise core.HarnessError(f"regression replay file unreadable: {path}: {ex!r}")
+        spec = {"prop": prop, "seed": doc["seed"], "run": doc["run"], "ops": doc["ops"], "cfg": doc["config"]}
+        res = runner.run_one(spec)
+        if "harness_error" in res:
+            raise core.HarnessError(f"regression replay {path}: {res['harness_error']}")
+        n += 1
+        fired = [v for v in res.get("violations", []) if v["sig"] not in known_sigs]
+        if fired:
+            log(f"regression: repaired defect is back ({e['status']}): {e['what'][:200]} -> {fired[0]['sig']}")
+            back.append((path, fired[0]))
+    return n, back
+
+
 def cmd_check(tier, prop):
     t_start = time.monotonic()
     prof = PROFILES[prop]
@@ -172,6 +199,9 @@ def cmd_check(tier, prop):
     log(f"check {tier} {prop}: VERIF_SEED={seed} unyt={core.unyt_src()} PYTHONHASHSEED={os.environ.get('PYTHONHASHSEED')}")
     known = load_known(prop)
     known_sigs = replay_known(prop, known, log)
+
+    n_fixed, regressions = replay_fixed(prop, known, known_sigs, log)
+    log(f"regression replays of repaired defects: {n_fixed} run, {len(regressions)} violating")
 
     n_self = prof["selftest_quick"] if tier == "quick" else prof["selftest_thorough"]
     st_info, st_bad = selftest_determinism(prop, seed, n_self, log)
@@ -225,12 +255,14 @@ def cmd_check(tier, prop):
         if sig2 in known_sigs:
             continue
         new.append((sig2, path, v2))
+    for path, v in regressions:
+        new.append((v["sig"], path, v))
     for sig, path, v in new:
         log(f"violation: {sig}  step={v['step']}  detail={json.dumps(v['detail'], ensure_ascii=False, default=str)[:600]}")
         print(f"VIOLATION property={prop} replay={path}", flush=True)
     evidence.write(prop, tier, seed, prof["level"], agg, st_info, time.monotonic() - t_start,
                    batch_wall=batch_wall, violations=len(new), known=[e["what"] for e in known_sigs.values()],
-                   minimisation=minim, not_run=not_run,
+                   minimisation=minim, not_run=not_run, regression_replays=n_fixed,
                    signatures_seen=sorted(fails))
     log(f"{prop} {tier}: runs={agg.runs} steps={agg.steps} nontrivial_shapes={len(agg.shapes_nontrivial)} "
         f"violating_signatures={len(fails)} new={len(new)} wall={time.monotonic() - t_start:.0f}s")
